@@ -37,4 +37,5 @@ func (g *gen) writeParams(path string) {
 }
 
 func (g *gen) run() {
+	g.lockTable()
 }
